@@ -145,3 +145,39 @@ pub fn spec_is_rtz(f: Fmt, mant: u64, exp: i32, bits: u64) -> bool {
     // R <= V < R + spacing (the next float up is (m_r+1) * 2^d, also across binades)
     (m_r << d) <= v && v < ((m_r + 1) << d)
 }
+
+// ---------------------------------------------------------------------------
+// Decimal-to-binary scaling
+
+/// floor(log2(10^q)) for q in [-350, 310]   (Verus obligation c14_verus_log2_formula
+/// proves the formula equals the mathematical floor on that range).
+pub fn spec_log2_pow10(q: i32) -> i32 {
+    ((q as i64 * 217706) >> 16) as i32
+}
+
+/// A 128-bit product P = hi:lo (hi >= 2^62) scaled by 2^e, as a 64-bit significand with
+/// its top bit set, a binary exponent and a "lower bits non-zero" flag:
+/// P * 2^e == (mant + eps) * 2^(e2), 0 <= eps < 1, eps != 0 iff sticky.
+pub fn spec_norm128(hi: u64, lo: u64, e: i32) -> (u64, i32, bool) {
+    if hi >> 63 == 1 {
+        (hi, e + 64, lo != 0)
+    } else {
+        ((hi << 1) | (lo >> 63), e + 63, (lo << 1) != 0)
+    }
+}
+
+/// Packed float `bits` is the round-to-nearest-even of the exact value
+/// V = (mant + eps) * 2^e2 (mant has its top bit set; eps as in spec_norm128), for all
+/// magnitudes: below half the smallest subnormal the answer must be +0.0.
+pub fn spec_is_rne_value(f: Fmt, mant: u64, e2: i32, sticky: bool, bits: u64) -> bool {
+    // biased exponent in the convention of spec_is_rne: V = mant * 2^(exp - bias)
+    let exp = e2 as i64 + f.bias as i64;
+    if exp < -63 {
+        // V < 2^64 * 2^(-64 - bias) = 2^-bias = half the smallest subnormal
+        bits == 0
+    } else if exp > 4000 {
+        bits == f.inf_e << f.ms
+    } else {
+        spec_is_rne_sticky(f, mant, exp as i32, sticky, bits)
+    }
+}
